@@ -80,6 +80,27 @@ def rank_tainted_names(f):
     return taint, expr_tainted
 
 
+def _communicators(f):
+    """names of locals of f that hold an MPI communicator: bound (directly or through another such local) to
+    MPI.COMM_WORLD or to the result of a communicator method (Split / Split_type / Create / Dup)"""
+    names = set()
+    changed = True
+    while changed:
+        changed = False
+        for n in walk_no_nested(f.node):
+            if isinstance(n, ast.Assign) and len(n.targets) == 1 and isinstance(n.targets[0], ast.Name):
+                d = dotted(n.value.func) if isinstance(n.value, ast.Call) else dotted(n.value)
+                if d is None:
+                    continue
+                is_comm = d.endswith('COMM_WORLD') or d.endswith('COMM_SELF') or d.split('.')[-1] in ('shared_comm',) or (
+                    isinstance(n.value, ast.Call) and d.split('.')[-1] in ('Split', 'Split_type', 'Create', 'Dup', 'Clone') and
+                    d.split('.')[0] in names) or (not isinstance(n.value, ast.Call) and d in names)
+                if is_comm and n.targets[0].id not in names:
+                    names.add(n.targets[0].id)
+                    changed = True
+    return names or {'comm'}
+
+
 def collective_sites(ix, f):
     """[(call node, name)] of collective calls in f (taurex.mpi wrappers or
     raw communicator methods inside taurex/mpi.py)."""
@@ -97,7 +118,7 @@ def collective_sites(ix, f):
                 out.append((n, last))
             elif d.split('.')[0] == 'mpi':
                 out.append((n, last))
-        elif f.module.relpath == MP and last in RAW and d.split('.')[0] in ('comm',):
+        elif f.module.relpath == MP and last in RAW and d.count('.') >= 1 and d.split('.')[0] in _communicators(f):
             out.append((n, last))
     return out
 
